@@ -215,7 +215,7 @@ def login_oracle(case, obs, with_shell):
         if b == user and user != pw:
             if b"login: " not in seen:
                 fails.append(f"the user name was sent at t={t} although no login prompt had been received: console so far {seen[-60:]!r}")
-        if cfg["password"] is not None and b == pw and user != pw:
+        if cfg["password"] and b == pw and user != pw:
             if b"Password: " not in seen:
                 fails.append(f"the password was sent at t={t} although no password prompt had been received: console so far {seen[-60:]!r}")
     # the board is powered on first and powered off last
